@@ -302,6 +302,8 @@ pub fn by_family(fam: &str, seed: u64) -> Scenario {
         "shutdownBs" => shutdown_bs(seed),
         "goawayBc" => goaway_bc(seed),
         "shutdownA" => shutdown_a(seed),
+        "floodBs" => flood_bs(seed),
+        "floodBc" => flood_bc(seed),
         _ => mix_a(seed, false),
     }
 }
@@ -1106,5 +1108,214 @@ pub fn shutdown_bs(seed: u64) -> Scenario {
         s.env.push(EnvStep { at: "step".into(), n: rng.gen_range(4..12), op: EnvOp::Ping { ep: 1 } });
     }
     s.env.push(EnvStep { at: "q".into(), n: 1, op: EnvOp::Conn { ep: 1, op: "graceful_shutdown".into(), n: 0 } });
+    s
+}
+
+// ---------------------------------------------------------------------------
+// C18: floods. A hostile scripted peer repeats an abusive pattern hundreds of times against a real endpoint
+// whose limits are configured small, while the application accepts slowly or not at all, reads or does not read,
+// and the endpoint's own writes are blocked for part of the run. A quiescence (and with it a statistics snapshot)
+// is taken every few items, so that the growth of the stream store and of the buffers is visible.
+fn small_limits(rng: &mut StdRng, c: &mut EpCfg, server: bool) {
+    if server {
+        c.max_conc = Some(pick(rng, &[1u32, 2, 3, 5]));
+    }
+    c.reset_max = Some(pick(rng, &[0usize, 1, 2, 4]));
+    c.pending_accept_reset_max = Some(pick(rng, &[0usize, 1, 2, 4]));
+    c.local_error_reset_max = Some(pick(rng, &[0i64, 1, 3, 6]));
+    if rng.gen_bool(0.6) {
+        c.data_frame_budget = Some(pick(rng, &[0usize, 255, 1024, 2560]));
+    }
+    if rng.gen_bool(0.6) {
+        c.max_hdr_list = Some(pick(rng, &[64u32, 256, 1024, 4096]));
+    }
+    if rng.gen_bool(0.5) {
+        c.iws = Some(pick(rng, &[100u32, 1000, 16384, 65535]));
+    }
+    if rng.gen_bool(0.3) {
+        c.conn_win = Some(pick(rng, &[65535u32, 100000]));
+    }
+    if rng.gen_bool(0.3) {
+        c.reset_dur_ms = Some(pick(rng, &[10u64, 1000]));
+    }
+}
+
+pub fn flood_bs(seed: u64) -> Scenario {
+    let mut rng = StdRng::seed_from_u64(seed ^ 0xF100D5);
+    let mut s = Scenario::default();
+    s.name = format!("floodBs-{}", seed);
+    s.mode = "Bs".into();
+    s.sched.seed = seed;
+    s.sched.max_steps = 2_000_000;
+    s.aims = vec!["C18".into(), "C08".into(), "C19".into()];
+    s.dense_stats = true;
+    small_limits(&mut rng, &mut s.scfg, true);
+    s.peer_cfg.ack_settings = true;
+    s.peer_cfg.ack_ping = true;
+    s.peer_cfg.grant = pick(&mut rng, &["all", "none", "lazy"]).to_string();
+    s.io.deliver = pick(&mut rng, &["all", "all", "rand"]).to_string();
+    // the application
+    match rng.gen_range(0..5) {
+        0 => s.srv_no_accept = true,
+        1 => s.srv_accept_budget = Some(rng.gen_range(0..3)),
+        _ => {}
+    }
+    let read = match rng.gen_range(0..3) {
+        0 => ReadPol { idle: true, ..ReadPol::default() },
+        1 => ReadPol { release: "never".into(), ..ReadPol::default() },
+        _ => ReadPol::default(),
+    };
+    let ops = match rng.gen_range(0..3) {
+        0 => vec![SendOp::Response { status: 200, hid: 0, eos: true }],
+        1 => vec![SendOp::Response { status: 200, hid: 0, eos: false }, SendOp::Data { n: 10, eos: true }],
+        _ => vec![SendOp::WaitQ { k: 1000 }], // never answers, holds the handles
+    };
+    s.srv.push(SrvProg { ops, read, note: String::new() });
+    let kind = rng.gen_range(0..14);
+    let n = if matches!(kind, 6 | 7) { pick(&mut rng, &[300usize, 2500, 6000]) } else if matches!(kind, 3 | 4 | 5 | 9) { pick(&mut rng, &[60usize, 250, 600, 1200]) } else { pick(&mut rng, &[40usize, 120, 300]) };
+    let every = pick(&mut rng, &[7usize, 50, 200]);
+    let hdr = |sid: u32, eos: bool| PeerStep::Headers { sid, hid: 0, fields: vec![], eos, frag: 0, huff: false, status: 0, req: true, method: "POST".into(), tag: sid };
+    let fr = |ty: u8, fl: u8, sid: u32, p: &[u8]| PeerStep::Frame { ty, fl, sid, hex: hx(p) };
+    let mut steps = vec![];
+    let mut sid = 1u32;
+    // a victim stream that stays open
+    steps.push(hdr(sid, false));
+    let open = sid;
+    sid += 2;
+    steps.push(PeerStep::WaitQ);
+    for i in 0..n {
+        let k = if kind == 13 { rng.gen_range(0..13) } else { kind };
+        match k {
+            0 => { steps.push(hdr(sid, false)); steps.push(PeerStep::Rst { sid, code: 8 }); sid += 2; }          // rapid reset
+            1 => { steps.push(hdr(sid, true)); sid += 2; }                                                       // complete requests, never read the answers
+            2 => { steps.push(hdr(sid, false)); sid += 2; }                                                      // open without closing: beyond the limit => refused
+            3 => steps.push(PeerStep::Data { sid: open, n: 1, eos: false, pad: None }),                          // tiny DATA
+            4 => steps.push(PeerStep::Data { sid: open, n: 0, eos: false, pad: None }),                          // empty DATA
+            5 => {                                                                                                // CONTINUATION flood
+                if i == 0 || kind == 13 { steps.push(fr(1, 0, sid, &[0x82])); }
+                steps.push(fr(9, 0, sid, if rng.gen_bool(0.5) { &[] } else { &[0x00, 0x03, 0x78, 0x2d, 0x61, 0x01, 0x31] }));
+                if kind == 13 { steps.push(fr(9, 4, sid, &[0x86, 0x84])); sid += 2; }
+            }
+            6 => steps.push(PeerStep::Ping { ack: false, pl: i as u64 }),
+            7 => steps.push(PeerStep::Settings { vals: vec![(4, 65535 - (i as u32 % 7))] }),
+            8 => { steps.push(hdr(sid, true)); steps.push(PeerStep::Data { sid, n: 1, eos: false, pad: None }); sid += 2; } // DATA after END_STREAM: stream error
+            9 => { steps.push(PeerStep::Wu { sid: open, inc: 1 }); steps.push(PeerStep::Priority { sid: sid + 100, dep: 0, excl: false, weight: 1 }); }
+            10 => {                                                                                               // oversize header lists
+                let big = "v".repeat(pick(&mut rng, &[100usize, 500, 3000, 9000]));
+                steps.push(PeerStep::Headers { sid, hid: 0, fields: vec![("x-big".into(), big)], eos: true, frag: 0, huff: false, status: 0, req: true, method: "GET".into(), tag: sid });
+                sid += 2;
+            }
+            11 => { steps.push(hdr(sid, true)); steps.push(fr(1, 5, sid, &[0x82, 0x86, 0x84])); sid += 2; }     // HEADERS on a closed stream
+            _ => { steps.push(hdr(sid, false)); steps.push(PeerStep::Data { sid, n: 3, eos: false, pad: None }); steps.push(PeerStep::Rst { sid, code: pick(&mut rng, &[0u32, 5, 8, 11]) }); sid += 2; }
+        }
+        if (i + 1) % every == 0 {
+            steps.push(PeerStep::WaitQ);
+        }
+    }
+    steps.push(PeerStep::WaitQ);
+    steps.push(PeerStep::WaitQ);
+    s.peer = steps;
+    // write back-pressure on the endpoint under attack for a part of the run
+    match rng.gen_range(0..4) {
+        0 => s.env.push(EnvStep { at: "q".into(), n: 1, op: EnvOp::Budget { ep: 1, n: Some(0) } }),
+        1 => {
+            s.env.push(EnvStep { at: "q".into(), n: 1, op: EnvOp::Budget { ep: 1, n: Some(0) } });
+            s.env.push(EnvStep { at: "q".into(), n: rng.gen_range(3..8), op: EnvOp::Budget { ep: 1, n: None } });
+        }
+        _ => {}
+    }
+    if rng.gen_bool(0.3) {
+        s.env.push(EnvStep { at: "q".into(), n: rng.gen_range(2..6), op: EnvOp::Time { ms: 2000 } });
+    }
+    if rng.gen_bool(0.3) {
+        s.env.push(EnvStep { at: "q".into(), n: rng.gen_range(2..6), op: EnvOp::Conn { ep: 1, op: "accept_allow".into(), n: rng.gen_range(1..4) } });
+    }
+    s
+}
+
+pub fn flood_bc(seed: u64) -> Scenario {
+    let mut rng = StdRng::seed_from_u64(seed ^ 0xF100DC);
+    let mut s = Scenario::default();
+    s.name = format!("floodBc-{}", seed);
+    s.mode = "Bc".into();
+    s.sched.seed = seed;
+    s.sched.max_steps = 2_000_000;
+    s.aims = vec!["C18".into(), "C08".into(), "C19".into()];
+    s.dense_stats = true;
+    small_limits(&mut rng, &mut s.ccfg, false);
+    if rng.gen_bool(0.7) {
+        s.ccfg.max_conc = Some(pick(&mut rng, &[1u32, 2, 5])); // limit on pushed streams
+    }
+    s.peer_cfg.ack_settings = true;
+    s.peer_cfg.ack_ping = true;
+    s.peer_cfg.grant = "all".into();
+    s.peer_cfg.respond = false;
+    s.io.deliver = pick(&mut rng, &["all", "all", "rand"]).to_string();
+    let push = rng.gen_bool(0.6);
+    s.ccfg.enable_push = Some(push);
+    let nreq = rng.gen_range(1..4u32);
+    for i in 0..nreq {
+        let mut r = ReqProg::default();
+        r.tag = i + 1;
+        r.ready = true;
+        r.eos = rng.gen_bool(0.7);
+        r.method = if r.eos { "GET".into() } else { "POST".into() };
+        if !r.eos {
+            r.ops = vec![SendOp::WaitQ { k: 1000 }];
+        }
+        r.read = match rng.gen_range(0..4) {
+            0 => ReadPol { idle: true, ..ReadPol::default() },
+            1 => ReadPol { push: true, info: true, ..ReadPol::default() },
+            2 => ReadPol { release: "never".into(), ..ReadPol::default() },
+            _ => ReadPol::default(),
+        };
+        s.reqs.push(r);
+    }
+    let kind = rng.gen_range(0..10);
+    let n = if matches!(kind, 4 | 5) { pick(&mut rng, &[300usize, 2500, 6000]) } else if matches!(kind, 1 | 2 | 3 | 6) { pick(&mut rng, &[60usize, 250, 600, 1200]) } else { pick(&mut rng, &[40usize, 120, 300]) };
+    let every = pick(&mut rng, &[7usize, 50, 200]);
+    let fr = |ty: u8, fl: u8, sid: u32, p: &[u8]| PeerStep::Frame { ty, fl, sid, hex: hx(p) };
+    let resp = |sid: u32, status: u16, eos: bool| PeerStep::Headers { sid, hid: 0, fields: vec![], eos, frag: 0, huff: false, status, req: false, method: String::new(), tag: 0 };
+    let mut steps = vec![PeerStep::WaitQ];
+    let mut prom = 2u32;
+    if matches!(kind, 2 | 3 | 8) {
+        steps.push(resp(1, 200, false));
+    }
+    for i in 0..n {
+        let k = if kind == 9 { rng.gen_range(0..9) } else { kind };
+        match k {
+            0 => { steps.push(PeerStep::PushPromise { sid: 1, promised: prom, hid: 0, fields: vec![], frag: 0, tag: 100 + prom }); prom += 2; }   // promises never fulfilled
+            1 => steps.push(resp(1, 103, false)),                                                                 // informational flood
+            2 => steps.push(PeerStep::Data { sid: 1, n: 1, eos: false, pad: None }),
+            3 => steps.push(PeerStep::Data { sid: 1, n: 0, eos: false, pad: None }),
+            4 => steps.push(PeerStep::Ping { ack: false, pl: i as u64 }),
+            5 => steps.push(PeerStep::Settings { vals: vec![(4, 65535 - (i as u32 % 7))] }),
+            6 => {
+                if i == 0 || kind == 9 { steps.push(fr(1, 0, 1, &[0x88])); }
+                steps.push(fr(9, 0, 1, if rng.gen_bool(0.5) { &[] } else { &[0x00, 0x03, 0x78, 0x2d, 0x61, 0x01, 0x31] }));
+                if kind == 9 { steps.push(fr(9, 4, 1, &[])); }
+            }
+            7 => {                                                                                                // promise + reset / promise + full pushed response
+                steps.push(PeerStep::PushPromise { sid: 1, promised: prom, hid: 0, fields: vec![], frag: 0, tag: 100 + prom });
+                if rng.gen_bool(0.5) { steps.push(PeerStep::Rst { sid: prom, code: 8 }); } else { steps.push(resp(prom, 200, true)); }
+                prom += 2;
+            }
+            _ => { steps.push(PeerStep::Wu { sid: 0, inc: 1 }); steps.push(PeerStep::Rst { sid: 1001 + 2 * (i as u32 % 3), code: 8 }); }   // RST_STREAM on idle ids: connection error at once
+        }
+        if (i + 1) % every == 0 {
+            steps.push(PeerStep::WaitQ);
+        }
+    }
+    steps.push(PeerStep::WaitQ);
+    steps.push(PeerStep::WaitQ);
+    s.peer = steps;
+    match rng.gen_range(0..4) {
+        0 => s.env.push(EnvStep { at: "q".into(), n: 1, op: EnvOp::Budget { ep: 0, n: Some(0) } }),
+        1 => {
+            s.env.push(EnvStep { at: "q".into(), n: 1, op: EnvOp::Budget { ep: 0, n: Some(0) } });
+            s.env.push(EnvStep { at: "q".into(), n: rng.gen_range(3..8), op: EnvOp::Budget { ep: 0, n: None } });
+        }
+        _ => {}
+    }
     s
 }
